@@ -152,7 +152,8 @@ def gen(schema, defs, depth=2, cap=40):
                 add(not m)
             elif isinstance(m, (int, float)):
                 add(m + 1)
-                add(m + 0.5)
+                if abs(m) < 2 ** 52:
+                    add(m + 0.5)   # beyond 2^52 the sum is an integer-valued float again (a float-form integer, which the alphabet excludes)
     if "const" in s:
         add(s["const"])
         c = s["const"]
